@@ -569,15 +569,7 @@ func (e Element) Write(w io.Writer, indent int) error {
 		closeAngleBracketIndent = indent
 	}
 	if e.hasNonWhitespaceChildren() {
-		if !e.IndentChildren {
-			// Children that are written over several lines (e.g. an element laid out with one attribute per
-			// line) are read back as indented children: lay them out that way at once.
-			b := new(bytes.Buffer)
-			if err := writeNodesWithoutIndentation(b, e.Children); err == nil && bytes.Contains(b.Bytes(), []byte("\n")) {
-				e.IndentChildren = true
-			}
-		}
-		if e.IndentChildren {
+		if e.indentsChildren() {
 			if err := writeIndent(w, closeAngleBracketIndent, ">\n"); err != nil {
 				return err
 			}
@@ -610,6 +602,18 @@ func (e Element) Write(w io.Writer, indent int) error {
 		return err
 	}
 	return nil
+}
+
+// indentsChildren reports whether the children are laid out on lines of their own: the layout that was parsed, or
+// children that are written over several lines (e.g. an element laid out with one attribute per line), which are
+// read back as indented children.
+func (e Element) indentsChildren() bool {
+	if e.IndentChildren || !e.hasNonWhitespaceChildren() {
+		return e.IndentChildren
+	}
+	b := new(bytes.Buffer)
+	err := writeNodesWithoutIndentation(b, e.Children)
+	return err == nil && bytes.Contains(b.Bytes(), []byte("\n"))
 }
 
 func writeNodesWithoutIndentation(w io.Writer, nodes []Node) error {
@@ -682,7 +686,7 @@ func isBlockNode(node Node) bool {
 	case ForExpression:
 		return true
 	case Element:
-		return n.IsBlockElement() || n.IndentChildren
+		return n.IsBlockElement() || n.indentsChildren()
 	}
 	return false
 }
